@@ -2148,14 +2148,9 @@ class CurveEngineC09:
                     f = fo["fired"]
                     faults[f"{f['seam']}:{f['exc']}:{f['when']}"] += 1
                     probes["rating request aborted by an injected fault"] += 1
-                    if fo.get("ok"):
-                        violation = make_violation(
-                            self.prop, "Q1", "fault-swallowed", feats,
-                            f"an injected {f['exc']} in {f['seam']} did not "
-                            f"reach the caller; rate_quality returned "
-                            f"{fo.get('ret')}", i)
-                        break
-                elif fo["rater_constructions"]:
+                if fo.get("ok") and fo["rater_constructions"]:
+                    # (a library that absorbs the failure and answers is
+                    # judged by the value of the repeated request)
                     cache_ref = (key, prep_epoch)
                 log.append({"i": i, "op": "rate-faulted", "out": dict(fo),
                             "obs": core.digest(observe_c09(idnt))})
